@@ -124,22 +124,25 @@ func (it *Iterator) Seek(target []byte) bool {
 		return false
 	}
 
-	// Binary search through restart points
+	// Binary search for the last restart point whose key is <= target: the
+	// first key >= target can only be there or later in that restart interval
 	left, right := 0, len(it.reader.restartPoints)-1
 	for left < right {
-		mid := (left + right) / 2
+		mid := (left + right + 1) / 2
 		it.restartIdx = mid
 		it.currentPos = it.reader.restartPoints[mid]
 
 		key, _, ok := it.decodeCurrent()
 		if !ok {
+			it.currentKey = nil
+			it.currentVal = nil
 			return false
 		}
 
-		if bytes.Compare(key, target) < 0 {
-			left = mid + 1
+		if bytes.Compare(key, target) <= 0 {
+			left = mid
 		} else {
-			right = mid
+			right = mid - 1
 		}
 	}
 
@@ -151,6 +154,8 @@ func (it *Iterator) Seek(target []byte) bool {
 	// First check the current position
 	key, val, ok := it.decodeCurrent()
 	if !ok {
+		it.currentKey = nil
+		it.currentVal = nil
 		return false
 	}
 
@@ -163,17 +168,11 @@ func (it *Iterator) Seek(target []byte) bool {
 
 	// Otherwise, scan forward until we find the first key >= target
 	for {
-		savePos := it.currentPos
 		key, val, ok = it.decodeNext()
 		if !ok {
-			// Restore position to the last valid entry
-			it.currentPos = savePos
-			key, val, ok = it.decodeCurrent()
-			if ok {
-				it.currentKey = key
-				it.currentVal = val
-				return true
-			}
+			// Every key in the block is < target: the iterator is not valid
+			it.currentKey = nil
+			it.currentVal = nil
 			return false
 		}
 
@@ -241,7 +240,10 @@ func (it *Iterator) SequenceNumber() uint64 {
 	return it.currentSeqNum
 }
 
-// decodeCurrent decodes the entry at the current position
+// decodeCurrent decodes the full-key entry at the current position, which
+// must be a restart point. Like decodeNext it leaves currentPos just past the
+// decoded entry, so currentPos is always the start of the entry that follows
+// the current one.
 func (it *Iterator) decodeCurrent() ([]byte, []byte, bool) {
 	if it.currentPos >= it.dataEnd {
 		return nil, nil, false
@@ -290,8 +292,10 @@ func (it *Iterator) decodeCurrent() ([]byte, []byte, bool) {
 
 		value = make([]byte, valueLen)
 		copy(value, data[:valueLen])
+		data = data[valueLen:]
 	}
 
+	it.currentPos = uint32(len(it.reader.data) - len(data))
 	it.currentKey = key
 	it.currentVal = value
 	it.currentSeqNum = seqNum
